@@ -126,7 +126,17 @@ pub fn draw_job(rng: &mut Rng, c: &Corpus) -> Job {
             spec.roots = vec![root.clone()];
         }
         let mut disk = job.disk.clone();
-        if rng.chance(1, 10) {
+        if rng.chance(1, 14) {
+            // directed shape: the first output is written over the source file,
+            // a later group builds a listing from that (now different) file
+            let g0 = crate::job::Group { format: Some(rng.pick(&["binary", "binary", "hexstr", "annotated"]).to_string()), out: Some(root.clone()), print: false };
+            let g1 = crate::job::Group { format: Some(rng.pick(&["addrspan", "annotated", "tcgame", "annotatedbin", "symbols"]).to_string()), out: if rng.chance(2, 3) { Some("listing.txt".to_string()) } else { None }, print: rng.chance(1, 4) };
+            spec.groups = vec![g0, g1];
+            spec.roots = vec![root.clone()];
+            spec.root_group = 0;
+            spec.help = false;
+            spec.version = false;
+        } else if rng.chance(1, 10) {
             // directed shape: an output group that must derive its file name
             // stands before the group naming the input, after a group that
             // writes or prints; the input's extension may be the derived one
@@ -344,7 +354,7 @@ pub fn msg_class(line: &str) -> String {
 
 fn first_error(stderr: &[u8]) -> String {
     let t = crate::job::strip_ansi(&String::from_utf8_lossy(stderr));
-    t.lines().find(|l| l.starts_with("error: ")).unwrap_or("").to_string()
+    t.lines().map(|l| l.trim_start().trim_start_matches("+ ")).find(|l| l.starts_with("error: ")).unwrap_or("").to_string()
 }
 
 pub fn fault_space(rec: &Record) -> Vec<Fault> {
@@ -364,7 +374,7 @@ pub fn fault_space(rec: &Record) -> Vec<Fault> {
 }
 
 pub fn run(ctx: &mut Ctx, c: &Corpus) -> Vec<Replay> {
-    let mut rng = Rng::new(ctx.run_seed);
+    let rng = Rng::new(ctx.run_seed);
     let mut jrng = rng.fork("job");
     let job = draw_job(&mut jrng, c);
     let keys = rng.fork("keys").bytes16();
@@ -539,12 +549,14 @@ pub fn check_proc(job: &Job, faults: &[ProcFault], rec: &ProcRecord, baseline: O
                 }
             }
         }
-        Some(1) => {
+        // the statement asks for "a non-zero exit status": any ordinary non-zero
+        // status is a failure (101 is how a Rust panic exits, handled below)
+        Some(code) if code != 0 && code != 101 => {
             if errs == 0 {
-                v.push(Violation::new("I2-failure-without-diagnostic", format!("exit 1 but no top-level error diagnostic; stderr={:?} | {}", String::from_utf8_lossy(&rec.stderr), ctx)));
+                v.push(Violation::new("I2-failure-without-diagnostic", format!("exit {} but no error diagnostic; stderr={:?} | {}", code, String::from_utf8_lossy(&rec.stderr), ctx)));
             }
             if !failed_write && !rec.changed.is_empty() {
-                v.push(Violation::new("I2-failure-wrote-output", format!("exit 1 ({}) but files were created or changed: {:?} | {}", first_error(&rec.stderr), rec.changed.keys().collect::<Vec<_>>(), ctx)));
+                v.push(Violation::new("I2-failure-wrote-output", format!("exit {} ({}) but files were created or changed: {:?} | {}", code, first_error(&rec.stderr), rec.changed.keys().collect::<Vec<_>>(), ctx)));
             }
         }
         Some(101) => {
@@ -595,7 +607,7 @@ fn proc_touched(rec: &ProcRecord) -> (BTreeSet<String>, BTreeSet<String>) {
 }
 
 pub fn run_proc(ctx: &mut Ctx, c: &Corpus, verif: &str) -> Vec<Replay> {
-    let mut rng = Rng::new(ctx.run_seed);
+    let rng = Rng::new(ctx.run_seed);
     let mut jrng = rng.fork("job");
     let job = draw_job(&mut jrng, c);
     let keys = crate::plan::keys_to_hex(&rng.fork("keys").bytes16());
@@ -625,7 +637,15 @@ pub fn run_proc(ctx: &mut Ctx, c: &Corpus, verif: &str) -> Vec<Replay> {
     // model validation: the same job through Tier A must agree on exit
     // status, diagnostics and written files; a difference is a harness error
     // (the simulated disk misrepresents the real one), never a verdict
-    if base.signal.is_none() && matches!(base.exit, Some(0) | Some(1)) {
+    let base_class = |e: Option<i32>| -> Option<i32> {
+        match e {
+            Some(0) => Some(0),
+            Some(101) => Some(101),
+            Some(_) => Some(1),
+            None => None,
+        }
+    };
+    if base.signal.is_none() && matches!(base_class(base.exit), Some(0) | Some(1)) {
         let plan = SimPlan::single(job.clone(), vec![], &crate::plan::keys_from_hex(&keys), false, false);
         let res = crate::plan::run_plan(&plan);
         let a = &res.runs[0].record;
@@ -644,12 +664,13 @@ pub fn run_proc(ctx: &mut Ctx, c: &Corpus, verif: &str) -> Vec<Replay> {
             _ => true,
         });
         ctx.stats.inc("model_validation_runs");
-        if a_exit == base.exit && a_files == base.changed && a.stderr != base.stderr && crate::job::top_level_errors(&a.stderr) == crate::job::top_level_errors(&base.stderr) {
+        let b_exit = base_class(base.exit);
+        if a_exit == b_exit && a_files == base.changed && a.stderr != base.stderr && crate::job::top_level_errors(&a.stderr) == crate::job::top_level_errors(&base.stderr) {
             // same outcome, same files, same number of diagnostics, other
             // wording (the two file servers phrase an I/O error differently):
             // measured, not an error of the harness
             ctx.stats.inc("model_wording_differences");
-        } else if a_exit != base.exit || a.stderr != base.stderr || a_files != base.changed {
+        } else if a_exit != b_exit || a.stderr != base.stderr || a_files != base.changed {
             ctx.stats.inc("model_divergence");
             ctx.stats.note(
                 "harness_errors",
@@ -668,7 +689,7 @@ pub fn run_proc(ctx: &mut Ctx, c: &Corpus, verif: &str) -> Vec<Replay> {
             );
         }
     }
-    if base.signal.is_some() || !matches!(base.exit, Some(0) | Some(1)) {
+    if base.signal.is_some() || !matches!(base_class(base.exit), Some(0) | Some(1)) {
         return out;
     }
 
